@@ -94,7 +94,8 @@ def find_scope(tk, pat, start, end, nth=0):
     '{' before any ';' (a definition, not a declaration); return (open, close) of the block."""
     hits = 0
     for (a, b, _) in find_all(tk, pat, start, end):
-        j = b; depth = 0
+        j = b - 1 if pat and pat[-1] == '{' else b
+        depth = 0
         while j < end:
             t = tk[j]
             if t in ('(', '<'): depth += 1
